@@ -39,6 +39,11 @@ ELEMS = {
     "R2": dict(type="relationship", spec_version="2.1", id=R2, created=T1, modified=T1, relationship_type="attributed-to", source_ref=I, target_ref=X),
     "R3": dict(type="relationship", spec_version="2.1", id=R3, created=T1, modified=T1, relationship_type="related-to", source_ref=Y, target_ref=Y),
 }
+# versions whose 'modified' is handed over as an AWARE DATETIME in another zone (the library keeps the caller's tzinfo on the value): the instant decides which is newest,
+# not the wall-clock digits.  ELEMS holds the instant in UTC text (the model's view), TZFORM what the library is given.
+ELEMS["X2east"] = mal("x2east", "2020-01-02T10:00:00.000Z")     # given as 12:00+02:00
+ELEMS["X2utc"] = mal("x2utc", "2020-01-02T11:00:00.000Z")       # given as text: the newest of the three
+ELEMS["X2west"] = mal("x2west", "2020-01-02T10:30:00.000Z")     # given as 07:30-03:00
 POP8 = ["X1", "X2", "X3", "Y", "I", "R1", "R1b", "R2"]
 _PARSED = {}
 
@@ -46,7 +51,12 @@ _PARSED = {}
 def obj(name):
     import stix2
     if name not in _PARSED:
-        _PARSED[name] = stix2.parse(copy.deepcopy(ELEMS[name]))
+        d = copy.deepcopy(ELEMS[name])
+        if name in ("X2east", "X2west"):
+            import datetime as _dt
+            off = 2 if name == "X2east" else -3
+            d["modified"] = _dt.datetime(2020, 1, 2, 12 if name == "X2east" else 7, 0 if name == "X2east" else 30, tzinfo=_dt.timezone(_dt.timedelta(hours=off)))
+        _PARSED[name] = stix2.parse(d)
     return _PARSED[name]
 
 
@@ -227,6 +237,21 @@ def check_target(label, target, union, part, case, cfilter_name, navigation=True
                         if len(got2) != len(set(got2)):
                             part.violation("C18/related_to/duplicates/%s" % feat, "a related object version is returned more than once", dict(c, obj=oid, form=form, options=opt),
                                            sorted(exp2, key=str), sorted(got2, key=str))
+                    if form == "id" and rtype is None and not so and not to:
+                        # "is Y related to X?": the caller's filter names one object by id - only that object may come back
+                        for yid in (X, Y, I):
+                            if yid == oid:
+                                continue
+                            part.transitions += 1
+                            exp3 = {k for k in related(union, oid, None, False, False, None) if k[0] == yid}
+                            try:
+                                got3 = {key(o) for o in target.related_to(arg, filters=[Filter("id", "=", yid)])}
+                            except Exception as e:
+                                part.violation("C18/raises/%s/related_to(id-filter)/%s" % (type(e).__name__, feat), "related_to raises", dict(c, obj=oid, filter_id=yid), sorted(exp3, key=str), "%s: %s" % (type(e).__name__, str(e)[:150]))
+                                continue
+                            if got3 != exp3:
+                                part.violation("C18/related_to/%s/caller-id-filter/%s" % ("missing" if exp3 - got3 else "extra", feat), "related_to with the caller's own id filter returns other objects than that one",
+                                               dict(c, obj=oid, filter_id=yid), sorted(exp3, key=str), sorted(got3, key=str))
             part.transitions += 1
             try:
                 target.relationships(arg, source_only=True, target_only=True)
@@ -289,6 +314,20 @@ def run_config(case, part):
             visible = sorted({n for n in members[0] if CFILTERS[chf][1](ELEMS[n])} | set(members[1]))
             hidden_ids = {ELEMS[n]["id"] for n in members[0] if not CFILTERS[chf][1](ELEMS[n])}
             check_target("parent-of-filtered-child-and-sibling", parent, visible, part, case, None, navigation=False, lenient_get=hidden_ids)
+            # ... and the same federation when the PARENT carries a filter of its own as well: the sibling sees the parent's filter only, the child's members see both
+            for pfn in ("type!=identity", "name!=x3"):
+                if pfn == chf:
+                    continue
+                child2 = CompositeDataSource()
+                child2.add_data_source(fx.sources[0])
+                child2.filters.add(Filter(*CFILTERS[chf][0]))
+                parent2 = CompositeDataSource()
+                for i in order:
+                    parent2.add_data_source(child2 if i == 0 else fx.sources[1])
+                parent2.filters.add(Filter(*CFILTERS[pfn][0]))
+                vis2 = sorted(n for n in ({n for n in members[0] if CFILTERS[chf][1](ELEMS[n])} | set(members[1])) if CFILTERS[pfn][1](ELEMS[n]))
+                hid2 = {ELEMS[n]["id"] for n in set(members[0]) | set(members[1]) if n not in vis2}
+                check_target("filtered-parent-of-filtered-child-and-sibling", parent2, vis2, part, dict(case, parent_own_filter=pfn), None, navigation=False, lenient_get=hid2)
             check_target("filtered-child-afterwards", child, sorted(set(members[0])), part, dict(case, members=[sorted(set(members[0]))]), chf, navigation=False)
             check_target("sibling-afterwards", fx.sources[1], sorted(set(members[1])), part, dict(case, members=[sorted(set(members[1]))]), None, navigation=False)
             return
@@ -488,6 +527,10 @@ def run(run):
     # (c2c) relationship versions whose end points differ (direction reversed by a later version), over 2 members and in one store
     for members in assignments(["X1", "Y", "R1", "R1rev", "R1b"], 2):
         cases.append({"members": members, "environment": True, "env_navigation": True, "single_store": len(members[1]) == 1})
+    # (c2d) versions given as aware datetimes of other zones, over 2 (thorough: 3) members and in one store
+    for k in ((2, 3) if th else (2,)):
+        for members in assignments(["X2east", "X2utc", "X2west", "I"], k):
+            cases.append({"members": members, "environment": True, "env_navigation": False, "single_store": k == 2 and len(members[1]) == 1})
     # (c3) versions that differ below the millisecond, over 2 and 3 members
     for members in assignments(["X1", "X3", "X3us", "R1", "R1us", "Y"], 2):
         cases.append({"members": members, "environment": len(members[0]) == 3, "env_navigation": True})
